@@ -723,6 +723,92 @@ def lints():
     order = [x for x in re.findall(r"self\.(types|constant|function_declaration|function_body|import)\(", body)]
     add("run makes the three passes in order", order == ["import", "types", "constant", "function_declaration", "function_body"]
         and body.count("for main in data") == 3, ["C15", "C16", "C17", "C14"], "calls: %s" % order)
+    # 5./6. per function: the error kinds raised and the instruction kinds emitted in the Rust source
+    # are those of the corresponding definitions of coq/Model.v (catches an added / removed site on
+    # paths the generated programs may not walk)
+    try:
+        model = open(os.path.join(ROOT, "coq", "Model.v")).read()
+    except OSError:
+        model = ""
+    model_nc = re.sub(r"\(\*.*?\*\)", "", model, flags=re.S)
+
+    def rust_fn_raw(name):
+        m2 = re.search(r"\bfn\s+%s\s*[(<]" % name, code)
+        if not m2:
+            return ""
+        nxt = re.search(r"\n    (?:pub )?(?:const )?fn\s+[a-z_0-9]+\s*[(<]", code[m2.end():])
+        return code[m2.start(): m2.end() + (nxt.start() if nxt else len(code))]
+
+    all_rust_fns = set(re.findall(r"\bfn\s+([a-z_0-9]+)\s*[(<]", code))
+
+    def rust_fn(name, seen=None):
+        """Body of `name` plus, transitively, the bodies of the private helpers it calls that are not
+        themselves analysis functions of the table below (so that factoring code out into a helper
+        does not disturb the comparison)."""
+        seen = seen if seen is not None else set()
+        if name in seen:
+            return ""
+        seen.add(name)
+        body = rust_fn_raw(name)
+        out = body
+        for callee in set(re.findall(r"(?:self\s*\.|Self::)\s*([a-z_0-9]+)\s*\(", body)):
+            if callee in all_rust_fns and callee not in entry_fns and callee != name:
+                out += rust_fn(callee, seen)
+        return out
+
+    def coq_def(name):
+        m2 = re.search(r"(?:Definition|Fixpoint|with)\s+%s\b" % name, model_nc)
+        if not m2:
+            return ""
+        nxt = re.search(r"\n\s*(?:Definition|Fixpoint|End|Section|Record|Inductive|with)\s", model_nc[m2.end():])
+        return model_nc[m2.start(): m2.end() + (nxt.start() if nxt else len(model_nc))]
+
+    groups = {
+        "check_type_exists": ["check_type_exists"],
+        "types": ["decl_type"],
+        "constant+check_constant_value_expression": ["decl_const", "g_check_type_exists"],
+        "function_declaration": ["decl_fn", "g_check_type_exists"],
+        "init_func_params": ["init_func_params"],
+        "function_body": ["fn_stmt", "fn_stmts", "function_body_m", "check_type_exists"],
+        "let_binding": ["let_binding"],
+        "binding": ["binding"],
+        "function_call": ["function_call", "call_args"],
+        "condition_expression": ["condition_expression"],
+        "if_condition_calculation": ["if_condition_calculation"],
+        "if_condition": ["if_condition_step"],
+        # the three nested statement loops are one parameterised loop in the model
+        "if_condition_body+if_condition_loop_body+loop_statement": ["code_after_errors", "nested_stmt", "loop_step"],
+        "check_return_type": ["check_return_type"],
+        "expression_operation": ["expr_value", "expr_chain", "check_type_exists"],
+    }
+    entry_fns = set(n for k in groups for n in k.split("+")) | {
+        "expression", "run", "new", "add_error", "add_state_context", "import", "expression_operations_priority",
+        "fetch_op_priority"}
+    instr_of_method = {"expression_value": "IExprValue", "expression_const": "IExprConst",
+                       "expression_struct_value": "IExprStruct", "expression_operation": "IExprOp", "call": "ICall",
+                       "let_binding": "ILet", "binding": "IBind", "expression_function_return": "IFnRet",
+                       "expression_function_return_with_label": "IFnRetLabel", "set_label": "ISetLabel",
+                       "jump_to": "IJumpTo", "if_condition_expression": "IIfCondExpr",
+                       "condition_expression": "ICondExpr", "jump_function_return": "IJumpFnRet",
+                       "logic_condition": "ILogic", "if_condition_logic": "IIfCondLogic", "function_arg": "IFnArg"}
+    bad_err, bad_ins = [], []
+    for rname, cnames in groups.items():
+        rsrc = "".join(rust_fn(n) for n in rname.split("+"))
+        csrc = "".join(coq_def(n) for n in cnames)
+        rk = set(re.findall(r"StateErrorKind::([A-Za-z]+)", rsrc))
+        ck = set(x[1:] for x in re.findall(r"\bE[A-Z][A-Za-z]+\b", csrc) if x not in ("Ex", "ERes", "EVName", "EVPrim", "EVCall", "EVField", "EVSub", "EVExt"))
+        if rname in ("constant+check_constant_value_expression", "function_declaration"):
+            ck |= {"TypeNotFound"}   # raised through (g_)check_type_exists
+        if not rk <= ck or not (ck - {"TypeNotFound"}) <= rk | {"TypeNotFound"}:
+            if rk != ck and not (rk | {"TypeNotFound"}) == (ck | {"TypeNotFound"}):
+                bad_err.append("%s: rust %s / model %s" % (rname, sorted(rk), sorted(ck)))
+        rm = set(instr_of_method[m2] for m2 in re.findall(r"borrow_mut\(\)\s*\.\s*([a-z_]+)\(", rsrc) if m2 in instr_of_method)
+        cm = set(re.findall(r"\b(I(?:ExprValue|ExprConst|ExprStruct|ExprOp|Call|Let|Bind|FnRetLabel|FnRet|SetLabel|JumpTo|IfCondExpr|CondExpr|JumpFnRet|Logic|IfCondLogic|FnArg))\b", csrc))
+        if rm != cm:
+            bad_ins.append("%s: rust %s / model %s" % (rname, sorted(rm), sorted(cm)))
+    every = ["C01", "C02", "C14", "C03", "C04", "C05", "C06", "C08", "C09", "C10", "C11", "C12", "C18", "C19"]
+    add("error kinds per function match the model", not bad_err, ["C01", "C02", "C14"], "; ".join(bad_err)[:600])
+    add("instruction kinds per function match the model", not bad_ins, every, "; ".join(bad_ins)[:600])
     return res
 
 
